@@ -316,6 +316,8 @@ def run(c, facts):
     import lexrules
     c.run(lambda c: lexrules.block_comment_exact(c, facts, 'C05.R10'))
     c.run(lambda c: lexrules.ident_alphabet(c, facts, 'C05.R12'))
+    import c02 as _c02
+    c.run(lambda c: _c02.r15c_rec_use_site(c, facts, rule='C05.R13'))
     c.run(r9_late_annotations, facts)
     R6 = c.rule('C05.R6', 'JOIN-AGREE: a declaration moved into a module is found again: an import binds to the module that was loaded for it (shared with C10.R5)')
     c.shared(R6, c10.r5_join_agree, 'C10.R5', facts)
